@@ -4,3 +4,4 @@ import Dagrt.Props.C14
 import Dagrt.Props.C04
 import Dagrt.Props.C05
 import Dagrt.Props.C08
+import Dagrt.Props.C02
